@@ -17,7 +17,12 @@ typedef struct {
 	const vf_proto *pr;
 	bool            raw;
 	int             tran;
-	nng_socket      s, peer;
+	nng_socket      s, peer; // 'peer' = the peer the current step talks to
+	nng_socket      peers[3];
+	bool            peers_open[3];
+	int             npeers;
+	nng_pipe        pipes[16]; // live pipes of s (from nng_pipe_notify)
+	int             npipes;
 	nng_msg        *stash; // last message received locally (for echo sends)
 	int             rfd, sfd;
 	bool            have_rfd, have_sfd;
@@ -27,6 +32,27 @@ typedef struct {
 	nng_listener    lst;
 	char            durl[128];
 } cx_t;
+
+#include <pthread.h>
+static pthread_mutex_t pipes_mtx = PTHREAD_MUTEX_INITIALIZER;
+
+static void
+pipe_cb(nng_pipe p, nng_pipe_ev ev, void *arg)
+{
+	cx_t *c = arg;
+	pthread_mutex_lock(&pipes_mtx);
+	if (ev == NNG_PIPE_EV_ADD_POST) {
+		if (c->npipes < 16) c->pipes[c->npipes++] = p;
+	} else if (ev == NNG_PIPE_EV_REM_POST) {
+		for (int i = 0; i < c->npipes; i++) {
+			if (nng_pipe_id(c->pipes[i]) == nng_pipe_id(p)) {
+				c->pipes[i] = c->pipes[--c->npipes];
+				break;
+			}
+		}
+	}
+	pthread_mutex_unlock(&pipes_mtx);
+}
 
 static int
 fd_readable(int fd)
@@ -55,6 +81,23 @@ settle(cx_t *c)
 		ok = vf_quiesce(3, 2000) && ok;
 	}
 	return ok;
+}
+
+static long
+activity(void)
+{
+	return vf_ev_count(NNI_VE_TASK_ENQ) + vf_ev_count(NNI_VE_POLL_BEGIN) + vf_ev_count(NNI_VE_REAP_BEGIN) + vf_ev_count(NNI_VE_AIO_EXPIRE);
+}
+
+// After an NNG_EAGAIN: was the library really idle?  Any task, poller wake-up,
+// reap or timer expiry in the next 10 ms means some stimulus was still on its
+// way when we probed, and the probe is not judged.
+static bool
+still_idle(void)
+{
+	long a = activity();
+	vf_msleep(10);
+	return activity() == a && vf_inflight() == 0;
 }
 
 // one non-blocking receive probe
@@ -104,6 +147,14 @@ probe_recv(cx_t *c, const char *after)
 			}
 		}
 		// (c) could it have supplied?
+		if (!still_idle()) { vf_stat("unjudged_activity_after_eagain", 1); return; }
+		if (nng_recvmsg(c->s, &m, NNG_FLAG_NONBLOCK) == 0) {
+			// state changed without visible activity?  keep the message, do not judge
+			vf_stat("unjudged_second_try_succeeded", 1);
+			if (c->stash) nng_msg_free(c->stash);
+			c->stash = m;
+			return;
+		}
 		nng_socket_set_ms(c->s, NNG_OPT_RECVTIMEO, 100);
 		int rv3 = nng_recvmsg(c->s, &m, 0);
 		if (rv3 == 0) {
@@ -162,6 +213,11 @@ probe_send(cx_t *c, const char *after)
 				}
 			}
 		}
+		if (!still_idle()) { vf_stat("unjudged_activity_after_eagain", 1); nng_msg_free(m); return; }
+		if (nng_sendmsg(c->s, m, NNG_FLAG_NONBLOCK) == 0) {
+			vf_stat("unjudged_second_try_succeeded", 1);
+			return;
+		}
 		nng_socket_set_ms(c->s, NNG_OPT_SENDTIMEO, 100);
 		int rv3 = nng_sendmsg(c->s, m, 0);
 		if (rv3 == 0) {
@@ -174,22 +230,33 @@ probe_send(cx_t *c, const char *after)
 }
 
 static int
-open_peer(cx_t *c)
+open_peer(cx_t *c, int pi)
 {
 	const vf_proto *pp = vf_proto_by_name(c->pr->peer_name);
 	int             rv;
-	if ((rv = pp->open(&c->peer)) != 0) return rv;
+	int             want = 1;
+	for (int i = 0; i < 3; i++) want += c->peers_open[i] ? 1 : 0;
+	if ((rv = pp->open(&c->peers[pi])) != 0) return rv;
+	c->peer = c->peers[pi];
 	nng_socket_set_ms(c->peer, NNG_OPT_SENDTIMEO, 60);
 	nng_socket_set_ms(c->peer, NNG_OPT_RECVTIMEO, 60);
 	nng_socket_set_ms(c->peer, NNG_OPT_REQ_RESENDTIME, 60000);
 	nng_socket_set_ms(c->peer, NNG_OPT_SURVEYOR_SURVEYTIME, 5000);
+	// fast redial, so that after a pipe loss the connection is back before
+	// the next probe (a reconnect during a probe would be an extra stimulus)
+	nng_socket_set_ms(c->peer, NNG_OPT_RECONNMINT, 3);
+	nng_socket_set_ms(c->peer, NNG_OPT_RECONNMAXT, 3);
 	if (!strcmp(pp->name, "sub")) nng_sub0_socket_subscribe(c->peer, "", 0);
 	if ((rv = nng_dial(c->peer, c->durl, NULL, 0)) != 0) return rv;
 	for (int i = 0; i < 2000; i++) {
-		if (vf_pipe_count(c->s) >= 1 && vf_pipe_count(c->peer) >= 1) break;
+		// (a PAIR socket refuses further peers: then only the peer side
+		// count can be waited for, briefly)
+		if (vf_pipe_count(c->s) >= want && vf_pipe_count(c->peer) >= 1) break;
+		if (i > 100 && vf_pipe_count(c->s) >= 1 && !strncmp(c->pr->name, "pair", 4)) break;
 		vf_msleep(1);
 	}
-	c->peer_open = true;
+	c->peers_open[pi] = true;
+	c->peer_open      = true;
 	return 0;
 }
 
@@ -216,9 +283,14 @@ run_case(long idx, vf_rng *r, int pi, bool raw, int tran, int nops)
 	if ((rv = nng_listen(c.s, url, &c.lst, 0)) != 0) vf_harness_fail("listen %s", nng_strerror(rv));
 	vf_dial_url(c.lst, tran, url, c.durl, sizeof(c.durl));
 
+	nng_pipe_notify(c.s, NNG_PIPE_EV_ADD_POST, pipe_cb, &c);
+	nng_pipe_notify(c.s, NNG_PIPE_EV_REM_POST, pipe_cb, &c);
+	c.npeers = strncmp(c.pr->name, "pair", 4) == 0 ? 1 : (int) vf_range(r, 1, 3);
 	probe_recv(&c, "open");
 	probe_send(&c, "open");
-	if ((rv = open_peer(&c)) != 0) vf_harness_fail("peer: %s", nng_strerror(rv));
+	for (int i = 0; i < c.npeers; i++) {
+		if ((rv = open_peer(&c, i)) != 0) vf_harness_fail("peer: %s", nng_strerror(rv));
+	}
 	probe_send(&c, "connect");
 	probe_recv(&c, "connect");
 
@@ -226,8 +298,11 @@ run_case(long idx, vf_rng *r, int pi, bool raw, int tran, int nops)
 	size_t hl = 0;
 	hist[0] = 0;
 	for (int i = 0; i < nops; i++) {
-		int         op = (int) vf_below(r, 9);
+		int         op = (int) vf_below(r, 10);
 		const char *what = "?";
+		int         pi = (int) vf_below(r, (uint32_t) c.npeers);
+		c.peer      = c.peers[pi];
+		c.peer_open = c.peers_open[pi];
 		switch (op) {
 		case 0:
 		case 1: { // peer sends k messages
@@ -269,12 +344,30 @@ run_case(long idx, vf_rng *r, int pi, bool raw, int tran, int nops)
 			if (c.peer_open) {
 				what = "peer-close";
 				nng_socket_close(c.peer);
-				c.peer_open = false;
+				c.peers_open[pi] = false;
 			} else {
 				what = "peer-open";
-				if (open_peer(&c) != 0) vf_harness_fail("peer reopen");
+				if (open_peer(&c, pi) != 0) vf_harness_fail("peer reopen");
 			}
 			break;
+		case 7: { // close one of our own pipes (first / random live pipe)
+			what = "local-pipe-close";
+			nng_pipe p = NNG_PIPE_INITIALIZER;
+			pthread_mutex_lock(&pipes_mtx);
+			if (c.npipes > 0) p = c.pipes[vf_chance(r, 1, 2) ? 0 : vf_below(r, (uint32_t) c.npipes)];
+			pthread_mutex_unlock(&pipes_mtx);
+			if (nng_pipe_id(p) > 0) {
+				int want = 0;
+				for (int k = 0; k < 3; k++) want += c.peers_open[k] ? 1 : 0;
+				if (!strncmp(c.pr->name, "pair", 4)) want = want ? 1 : 0;
+				nng_pipe_close(p);
+				vf_msleep(2);
+				// wait for the peer's dialer to come back
+				for (int k = 0; k < 1500 && vf_pipe_count(c.s) < want; k++) vf_msleep(1);
+				vf_msleep(5);
+			}
+			break;
+		}
 		case 6:
 			if (!strcmp(c.pr->name, "sub") && !raw) {
 				if (vf_chance(r, 1, 2)) { what = "unsubscribe"; nng_sub0_socket_unsubscribe(c.s, "", 0); }
@@ -294,9 +387,107 @@ run_case(long idx, vf_rng *r, int pi, bool raw, int tran, int nops)
 	}
 	if ((idx % 7) == 0) vf_sample("{\"proto\":\"%s\",\"tran\":\"%s\",\"history\":\"%s\"}", c.name, vf_tran_names[tran], hist);
 	if (c.stash) nng_msg_free(c.stash);
-	if (c.peer_open) nng_socket_close(c.peer);
+	for (int i = 0; i < 3; i++) {
+		if (c.peers_open[i]) nng_socket_close(c.peers[i]);
+	}
 	nng_socket_close(c.s);
 	vf_stat("cases", 1);
+	// allocator balance per case (so a leak is attributed to its case)
+	vf_nng_fini("C15");
+	vf_nng_init(4, 2, 2);
+}
+
+
+// "parked" scenarios: messages from several peers are pending, then ONE
+// disruption (closing pipe j for every j, closing peer j, a buffer resize) and
+// probes until everything is drained.  Enumerated, not sampled: the pipe that
+// holds the oldest pending message is among the j.
+static void
+run_parked(long idx, vf_rng *r, int pi, bool raw, int tran, int disruption, int target)
+{
+	cx_t c;
+	char url[128];
+	int  rv;
+	static const char *dnames[] = { "local-pipe-close", "peer-close", "resize-recvbuf", "resize-sendbuf", "none" };
+	memset(&c, 0, sizeof(c));
+	c.pr   = &vf_protos[pi];
+	c.raw  = raw;
+	c.tran = tran;
+	snprintf(c.name, sizeof(c.name), "%s%s", raw ? "x" : "", c.pr->name);
+	vf_case_begin(idx, "parked proto=%s tran=%s disruption=%s target=%d", c.name, vf_tran_names[tran], dnames[disruption], target);
+	if ((rv = (raw ? c.pr->open_raw : c.pr->open)(&c.s)) != 0) vf_harness_fail("open");
+	nng_socket_set_ms(c.s, NNG_OPT_REQ_RESENDTIME, 60000);
+	nng_socket_set_ms(c.s, NNG_OPT_SURVEYOR_SURVEYTIME, 2000);
+	if (!strcmp(c.pr->name, "sub") && !raw) nng_sub0_socket_subscribe(c.s, "", 0);
+	c.have_rfd = nng_socket_get_recv_poll_fd(c.s, &c.rfd) == 0;
+	c.have_sfd = nng_socket_get_send_poll_fd(c.s, &c.sfd) == 0;
+	nng_pipe_notify(c.s, NNG_PIPE_EV_ADD_POST, pipe_cb, &c);
+	nng_pipe_notify(c.s, NNG_PIPE_EV_REM_POST, pipe_cb, &c);
+	vf_url(tran, url, sizeof(url));
+	if ((rv = nng_listen(c.s, url, &c.lst, 0)) != 0) vf_harness_fail("listen");
+	vf_dial_url(c.lst, tran, url, c.durl, sizeof(c.durl));
+	c.npeers = strncmp(c.pr->name, "pair", 4) == 0 ? 1 : 3;
+	for (int i = 0; i < c.npeers; i++) {
+		if ((rv = open_peer(&c, i)) != 0) vf_harness_fail("peer");
+	}
+	// a surveyor / req local must speak first so that peers may answer
+	if (!raw && (!strcmp(c.pr->name, "req") || !strcmp(c.pr->name, "surveyor"))) {
+		nng_msg *m = fresh_msg(&c);
+		if (nng_sendmsg(c.s, m, 0) != 0) nng_msg_free(m);
+		for (int i = 0; i < c.npeers; i++) {
+			nng_msg *q;
+			if (nng_recvmsg(c.peers[i], &q, 0) == 0) {
+				if (nng_sendmsg(c.peers[i], q, 0) != 0) nng_msg_free(q);
+			}
+		}
+	} else {
+		// every peer sends two messages, in a seeded peer order
+		int order[3] = { 0, 1, 2 };
+		for (int i = c.npeers - 1; i > 0; i--) { int j = (int) vf_below(r, (uint32_t) i + 1); int t = order[i]; order[i] = order[j]; order[j] = t; }
+		for (int round = 0; round < 2; round++) {
+			for (int i = 0; i < c.npeers; i++) {
+				nng_msg *m = fresh_msg(&c);
+				if (nng_sendmsg(c.peers[order[i]], m, 0) != 0) nng_msg_free(m);
+				settle(&c);
+			}
+		}
+	}
+	settle(&c);
+	switch (disruption) {
+	case 0: {
+		nng_pipe p = NNG_PIPE_INITIALIZER;
+		pthread_mutex_lock(&pipes_mtx);
+		if (target < c.npipes) p = c.pipes[target];
+		pthread_mutex_unlock(&pipes_mtx);
+		if (nng_pipe_id(p) > 0) {
+			// stop the peers from redialling: the state right after the loss is what we probe
+			for (int i = 0; i < c.npeers; i++) { nng_socket_set_ms(c.peers[i], NNG_OPT_RECONNMINT, 10000); nng_socket_set_ms(c.peers[i], NNG_OPT_RECONNMAXT, 10000); }
+			nng_pipe_close(p);
+			vf_msleep(5);
+		}
+		break;
+	}
+	case 1:
+		if (target < c.npeers) { nng_socket_close(c.peers[target]); c.peers_open[target] = false; vf_msleep(5); }
+		break;
+	case 2: nng_socket_set_int(c.s, NNG_OPT_RECVBUF, target); break;
+	case 3: nng_socket_set_int(c.s, NNG_OPT_SENDBUF, target); break;
+	default: break;
+	}
+	for (int k = 0; k < 8; k++) {
+		probe_recv(&c, dnames[disruption]);
+		if (k == 0 || k == 4) probe_send(&c, dnames[disruption]);
+		vf_watchdog(60);
+	}
+	if (c.stash) nng_msg_free(c.stash);
+	for (int i = 0; i < 3; i++) {
+		if (c.peers_open[i]) nng_socket_close(c.peers[i]);
+	}
+	nng_socket_close(c.s);
+	vf_stat("cases", 1);
+	vf_stat("parked_cases", 1);
+	vf_nng_fini("C15");
+	vf_nng_init(4, 2, 2);
 }
 
 int
@@ -308,6 +499,7 @@ main(int argc, char **argv)
 	// enumerate protocol x raw x transport, several histories each
 	long idx = 0;
 	int  reps = vf_cases > 0 ? (int) vf_cases : 1;
+	if (!strcmp(vf_mode, "parked")) reps = 0;
 	for (int rep = 0; rep < reps; rep++) {
 		for (int pi = 0; pi < vf_nprotos; pi++) {
 			for (int raw = 0; raw < 2; raw++) {
@@ -315,6 +507,24 @@ main(int argc, char **argv)
 					if ((idx % vf_nshards) != vf_shard || !vf_want_case(idx)) continue;
 					vf_rng_seed(&r, vf_seed, (uint64_t) idx);
 					run_case(idx, &r, pi, raw != 0, t == 0 ? VF_T_INPROC : VF_T_TCP, (int) vf_range(&r, 6, 14));
+				}
+			}
+		}
+	}
+	// enumerated parked-message scenarios
+	if (!strcmp(vf_mode, "parked") || vf_tier == 1) {
+		long pidx = 1000000;
+		for (int pi = 0; pi < vf_nprotos; pi++) {
+			for (int raw = 0; raw < 2; raw++) {
+				for (int t = 0; t < 2; t++) {
+					for (int d = 0; d < 5; d++) {
+						int nt = d == 0 ? 3 : d == 1 ? 3 : d == 4 ? 1 : 3;
+						for (int tg = 0; tg < nt; tg++, pidx++) {
+							if ((pidx % vf_nshards) != vf_shard || !vf_want_case(pidx)) continue;
+							vf_rng_seed(&r, vf_seed, (uint64_t) pidx);
+							run_parked(pidx, &r, pi, raw != 0, t == 0 ? VF_T_INPROC : VF_T_TCP, d, d >= 2 ? tg * 2 : tg);
+						}
+					}
 				}
 			}
 		}
